@@ -41,10 +41,16 @@ extern int mpt_string_set(char **ptr, const char *data, int len)
 	if (data == *ptr) {
 		return 0;
 	}
-	/* new text is part of the current one: move before the block may change */
+	/* new text is part of the current one: keep it until the new block exists */
 	if ((txt = *ptr) && data > txt && data <= txt + strlen(txt)) {
-		memmove(txt, data, len);
-		data = 0;
+		if (!(txt = malloc(len + 1))) {
+			return MPT_ERROR(BadOperation);
+		}
+		memcpy(txt, data, len);
+		txt[len] = 0;
+		free(*ptr);
+		*ptr = txt;
+		return len;
 	}
 	if (!(txt = realloc(*ptr, len + 1))) {
 		return MPT_ERROR(BadOperation);
